@@ -284,6 +284,9 @@ class TextTemplate:
         else:
             future = Util.any(subscriptions)
         future = asyncio.ensure_future(future)
+        if len(subscriptions) > 1:
+            # nobody looks at the other subscriptions once the first one fired or the subscriber cancelled
+            future.add_done_callback(lambda _: Util.cancel_futures(subscriptions))
         return value, future
 
 
@@ -907,6 +910,10 @@ class BasePlaceholderManager(MpfController):
             subscriptions.append(self.machine.wait_for_stop())
             future = Util.any(subscriptions)
         future = asyncio.ensure_future(future)
+        if subscriptions:
+            # nobody looks at the other subscriptions once the first one fired or the subscriber cancelled (a task
+            # which gets cancelled before it ran for the first time never reaches the cleanup in Util.first)
+            future.add_done_callback(lambda _: Util.cancel_futures(subscriptions))
         return value, future
 
     @lru_cache(typed=True)
